@@ -36,7 +36,7 @@ import (
 // the case
 
 type vxC13Outcome struct {
-	Kind      string `json:"kind"`               // ok | err | noreply | close
+	Kind      string `json:"kind"`               // ok | err | noreply | close | down (the driver itself takes the host down while the request is in flight: a DOWN event)
 	Code      int    `json:"code,omitempty"`     // err: server error code
 	Alive     int    `json:"alive,omitempty"`    // Unavailable
 	Received  int    `json:"received,omitempty"` // Read/Write timeout
@@ -162,7 +162,7 @@ func vxC13DrawOutcome(t *rapid.T, spec vxC13Spec, allowNoReply bool, first bool)
 	if first && rapid.IntRange(0, 2).Draw(t, "first_fails") != 2 {
 		allowNoReply = false
 	}
-	kinds := []string{"err", "err", "err", "err", "err", "err", "err", "err", "ok", "ok", "close", "close"}
+	kinds := []string{"err", "err", "err", "err", "err", "err", "err", "err", "ok", "ok", "close", "close", "down"}
 	if allowNoReply {
 		kinds = append(kinds, "noreply")
 	}
@@ -369,6 +369,7 @@ type vxC13State struct {
 	g            int
 	cancelled    bool
 	damaged      []bool
+	gone         []bool // taken down by the driver itself (a DOWN event): passed over from then on
 	lastErr      *vxC13Res
 	cl           int
 	attemptCalls int
@@ -379,6 +380,7 @@ type vxC13State struct {
 func (s vxC13State) clone() vxC13State {
 	s.arr = append([]int{}, s.arr...)
 	s.damaged = append([]bool{}, s.damaged...)
+	s.gone = append([]bool{}, s.gone...)
 	s.steps = append([]vxC13Step{}, s.steps...)
 	return s
 }
@@ -396,7 +398,7 @@ type vxC13Ref struct {
 // happens while a request is in flight may be seen before or after that request's answer.
 func vxC13Reference(c *vxC13Case, opt vxC13RefOpt) []vxC13Pred {
 	r := &vxC13Ref{c: c, opt: opt}
-	st := vxC13State{arr: make([]int, c.NHosts), damaged: make([]bool, c.NHosts), cl: c.Cons}
+	st := vxC13State{arr: make([]int, c.NHosts), damaged: make([]bool, c.NHosts), gone: make([]bool, c.NHosts), cl: c.Cons}
 	switch c.Cancel.Mode {
 	case "pre", "predeadline":
 		st.cancelled = true
@@ -441,6 +443,13 @@ func (r *vxC13Ref) loop(st vxC13State) {
 		return
 	}
 	h := r.c.Offers[st.pos]
+	if st.gone[h] {
+		// the host is marked down: offered or not, it is passed over
+		s := st.clone()
+		r.advance(&s)
+		r.loop(s)
+		return
+	}
 	if st.damaged[h] {
 		s := st.clone() // the pool of h is empty: the host is passed over
 		r.advance(&s)
@@ -485,6 +494,11 @@ func (r *vxC13Ref) loop(st vxC13State) {
 	case "close":
 		st.damaged[h] = true
 		r.decide(st, vxC13Res{Kind: "connloss"}, oc)
+	case "down":
+		// the connection is closed by the driver itself while the request is in flight: to the request that
+		// is one more failed attempt (the retry policy decides), the host is down from then on
+		st.gone[h] = true
+		r.decide(st, vxC13Res{Kind: "connloss"}, vxC13Outcome{Kind: "close"})
 	}
 }
 
@@ -800,6 +814,13 @@ type vxC13World struct {
 	cancel   func()
 	timers   []*time.Timer
 	wg       sync.WaitGroup
+	sess     *Session
+}
+
+func (w *vxC13World) session() *Session {
+	w.mu.Lock()
+	defer w.mu.Unlock()
+	return w.sess
 }
 
 func vxC13Msg(h, k int) string { return fmt.Sprintf("c13 h%d k%d", h, k) }
@@ -854,10 +875,10 @@ func (w *vxC13World) handler(h int) func(rc *vnode.ReqCtx) {
 				a.waiting = false
 				w.pending--
 			}
-			if oc.Kind == "close" {
-				// every other request in flight on this connection dies with it
+			if oc.Kind == "close" || oc.Kind == "down" {
+				// every other request in flight on this connection (down: on this host) dies with it
 				for _, b := range w.arrivals {
-					if b != a && b.conn == a.conn && b.waiting {
+					if b != a && (b.conn == a.conn || (oc.Kind == "down" && b.Host == a.Host)) && b.waiting {
 						b.waiting, b.dead = false, true
 						w.pending--
 					}
@@ -873,6 +894,10 @@ func (w *vxC13World) handler(h int) func(rc *vnode.ReqCtx) {
 					Function: "f", ArgTypes: []string{"int"}})
 			case "close":
 				rc.Conn.Close()
+			case "down":
+				if s := w.session(); s != nil {
+					s.handleNodeDown(net.ParseIP(rc.Node.Spec.IP), rc.Node.Spec.Port)
+				}
 			}
 		}
 		if oc.Kind != "noreply" && oc.DelayMs > 0 {
@@ -998,6 +1023,9 @@ func vxC13Execute(c *vxC13Case, timeoutScale int) (*vxC13Obs, error) {
 		return nil, fmt.Errorf("%w: CreateSession: %v", errVxC13Harness, err)
 	}
 	defer s.Close()
+	w.mu.Lock()
+	w.sess = s
+	w.mu.Unlock()
 
 	// wait until every host is known and its pool is full
 	hosts := make([]*HostInfo, c.NHosts)
@@ -1325,7 +1353,7 @@ func vxC13Judge(c *vxC13Case, o *vxC13Obs) error {
 		if a.Outstanding > spec {
 			return fmt.Errorf("request h%d#%d arrived while %d others were in flight; 1+%d executions allow %d: %s", a.Host, a.K, a.Outstanding, spec, spec, desc())
 		}
-		if a.Outcome.Kind == "close" {
+		if a.Outcome.Kind == "close" || a.Outcome.Kind == "down" {
 			closedHosts[a.Host] = true
 		}
 	}
@@ -1403,7 +1431,7 @@ func vxC13Judge(c *vxC13Case, o *vxC13Obs) error {
 	case "connloss":
 		okc := false
 		for _, a := range o.arrivals {
-			if a.Outcome.Kind == "close" && a.ReplyEv != 0 && a.ReplyEv <= o.returnEv {
+			if (a.Outcome.Kind == "close" || a.Outcome.Kind == "down") && a.ReplyEv != 0 && a.ReplyEv <= o.returnEv {
 				okc = true
 			}
 		}
